@@ -109,3 +109,12 @@ Print Assumptions C17_refused_calls_accepted_by_judge.
 Check (fun name p hdr => @new_refused_accepted name p hdr).
 Check (fun name p hdr => @open_other_p_accepted name p hdr).
 Check history_accepted_example.
+
+(* "open of a missing series is an error and creates nothing", at the level of the judge: before anything exists, an open with
+   any arguments is answered with an error the judge accepts, no file appears, and whatever follows is judged as if the open had
+   not happened - so every accepted session may be preceded by any number of such opens *)
+Theorem C17_open_missing_accepted_by_judge : forall name popt hdropt (caches:list N) cb rest,
+  existsb (fun B => (B =? 0)%N) caches = false ->
+  accepted World.init_world judge_init rest -> accepted World.init_world judge_init (OOpen name popt hdropt caches cb :: rest).
+Proof. exact open_missing_accepted. Qed.
+Print Assumptions C17_open_missing_accepted_by_judge.
